@@ -124,6 +124,7 @@ def resp_features(doc, sch, rp, op) -> dict:
         "stream": rp["expect"]["kind"] in ("stream_json", "bytes"),
         "top_enum": "enum" in rs,
         "map_body": rs.get("type") == "object" and "properties" not in rs and "allOf" not in rs,
+        "doc_self_ref": any(('"$ref": "#/components/schemas/%s"' % n) in json.dumps(sc) for n, sc in doc["components"]["schemas"].items()),
     }
 
 
@@ -150,8 +151,8 @@ def attribute(call: dict, mism: list[str]) -> str | None:
         return "F32b"
     if "name 'structure_from_dict' is not defined" in text and not call["primary"]:
         return "F41"
-    if "ForwardRef(" in text:
-        return "F42"
+    if "ForwardRef(" in text or (f.get("doc_self_ref") and ("Cannot structure" in text or "Could not structure" in text)):
+        return "F42"   # a model that references itself through an array cannot be decoded, nor can any model containing it
     if call.get("media_type") == "application/x-ndjson" and "streamed items []" in text:
         return "F43"
     if f["has_union_inside"] or f["union"]:
